@@ -228,6 +228,9 @@ func checkC11(cx *Ctx, r *Report) {
 			r.Check(ok, "R-SIB", "idp.conf", w.FnPos(ni), "IdentityProvider.conf is the configuration passed to the constructor", "IdentityProvider.conf is not the configuration the routed endpoints were derived from")
 		}
 	}
+	// ... and "the same configuration" means the same at both readings: the routes are laid out once, at construction,
+	// the advertised locations are computed from the configuration on every request
+	cx.checkEndpointConfigConstant(r)
 	// Absolute / Relative agree on the path
 	cx.checkEndpointFuncs(r)
 	// no matchers on routes
@@ -570,4 +573,71 @@ func isFieldLoadOf(v ssa.Value, owner, field string) bool {
 		}
 	}
 	return false
+}
+
+// checkEndpointConfigConstant (R-EFFECT): the routed paths are derived from the endpoint configuration once (when the
+// provider is built), the advertised locations again on every metadata request. They agree only as long as nobody
+// changes an endpoint in between: a normalisation applied to the configured *Endpoint objects after the constructor
+// has copied them moves every advertised location away from its route. Rule: no module code stores into an Endpoint,
+// an EndpointConfig or the Endpoints table of an object it did not create itself (a store into a fresh local object -
+// a composite literal being filled, a local copy - is construction, not change; a helper every call site of which
+// hands in such a fresh object counts as construction too).
+func (cx *Ctx) checkEndpointConfigConstant(r *Report) {
+	w, fx := cx.W, cx.Fx
+	protected := map[string]bool{"provider.Endpoint": true, "provider.EndpointConfig": true, "provider.Endpoints": true}
+	var fresh func(v ssa.Value, depth int) bool
+	fresh = func(v ssa.Value, depth int) bool {
+		switch x := v.(type) {
+		case *ssa.Alloc:
+			return true
+		case *ssa.FieldAddr:
+			return fresh(x.X, depth)
+		case *ssa.IndexAddr:
+			return fresh(x.X, depth)
+		case *ssa.Parameter:
+			if depth > 2 {
+				return false
+			}
+			vs := fx.throughWrapperParams(x, 0)
+			if len(vs) == 1 && vs[0] == ssa.Value(x) {
+				return false
+			}
+			for _, a := range vs {
+				if !fresh(a, depth+1) {
+					return false
+				}
+			}
+			return true
+		}
+		return false
+	}
+	n := 0
+	for _, fn := range w.Funcs {
+		for _, b := range fn.Blocks {
+			for _, in := range b.Instrs {
+				st, ok := in.(*ssa.Store)
+				if !ok {
+					continue
+				}
+				owner := ""
+				switch a := st.Addr.(type) {
+				case *ssa.FieldAddr:
+					owner = fieldOwner(a.X.Type())
+				default:
+					if pt, ok := st.Addr.Type().Underlying().(*types.Pointer); ok {
+						owner = typeKey(pt.Elem())
+					}
+				}
+				if !protected[owner] {
+					continue
+				}
+				n++
+				if fresh(st.Addr, 0) {
+					continue
+				}
+				r.Fail("R-EFFECT", "endpoint-config-changed@"+w.FuncKey(fn), w.InstrPos(st), "module code changes an object of type "+owner+" it did not create ("+fx.path(st.Addr)+"): the routes were derived from the endpoint configuration when the provider was built, the advertised locations are derived from it on every request - after this store they no longer name the same paths")
+			}
+		}
+	}
+	r.Ok("R-EFFECT", "endpoint-config-constant", "", fmt.Sprintf("%d stores into endpoint objects, all into objects under construction", n))
 }
